@@ -220,6 +220,17 @@ def stft_case(draw):
             "data": draw(st.sampled_from(["noise", "tone"]))}
 
 
+@st.composite
+def stft_huge_case(draw):
+    """signals beyond 2^22 elements (any batching / blocking inside the transforms would show here), segment counts with awkward remainders"""
+    spec = draw(G.signal_spec(classes=["BasebandSignal"], nmin=1, nmax=1, nchan_max=2, max_trailing=0, dtypes=["c8"], data_kinds=("noise",),
+                              sr=G.freq_q(3, 9), start="some"))
+    spec["n"] = draw(st.sampled_from([2**21 + 64, 2**22 + 192, 3000017, 2**21, 2**22 + 1, 4500000]))
+    spec["sshape"] = [draw(st.sampled_from([1, 2, 2]))]
+    spec["data"] = {"kind": "noise", "seed": draw(st.integers(0, 1000))}
+    return {"sig": spec, "M": draw(st.sampled_from([64, 1000, 4096, 7, 250])), "tone_c": 0, "tone_b": 0, "data": "noise"}
+
+
 def run_stft(case, stt):
     import pulsarbat as pb
 
@@ -269,7 +280,9 @@ def run_stft(case, stt):
     assert_labels(w, labels, 4, "istft(stft(z)) labels: ")
     e2 = float(np.max(np.abs(np.asarray(w.data) - x[: K * M]))) if K else 0.0
     check(e2 <= 2 * tol, "istft(stft(z)) differs from z by {:.3g} (tol {:.3g})", e2, 2 * tol)
-    stt.nt(nchan >= 2 and nchan % 2 == 0 and spec["align"] != "center")
+    stt.nt((nchan >= 2 and nchan % 2 == 0 and spec["align"] != "center") or N * nchan > 2**22)
+    if N * nchan > 2**22:
+        stt.label("beyond_2^22_elements")
     stt.label("align_" + (spec["align"] if nchan % 2 == 0 else "center(odd)"))
     stt.label("M_odd" if M % 2 else "M_even")
     stt.label("M==N" if M == N else "M<N")
@@ -296,6 +309,9 @@ SUBS = [
         "baseband classes, nchan 1..4, all alignments, nperseg 1..len (odd, even, == len), trailing dim, noise or a tone at a known bin of a "
         "drawn channel: shape, rate/nperseg, start, exact sub-channel labels, per-segment DFT data, tone lands in the labelled sub-channel, "
         "istft restores data/rate/start/labels; non-trivial = even nchan >= 2 with 'bottom'/'top'", quick=2000, thorough=40000, pieces_quick=4),
+    Sub("stft_huge_signals", stft_huge_case(), run_stft,
+        "the same checks on NumPy signals of 2^21 .. 4.5e6 samples x 1-2 channels (beyond 2^22 elements), nperseg 7..4096; every case non-trivial "
+        "by size", quick=8, thorough=48, pieces_quick=2, pieces_thorough=8, budget_quick=120),
     Sub("stft_refusals", G.signal_spec(classes=["Signal", "RadioSignal", "IntensitySignal"], nmin=4, nmax=8, nchan_max=2, max_trailing=0), run_stft_err,
         "non-baseband input is refused", quick=30, thorough=300, pieces_quick=1),
 ]
